@@ -417,6 +417,8 @@ def run(c):
     c.assumptions = ["in-memory state db (aergo-lib memorydb); zero fee as in the package's own tests",
                      "balances/amounts abstracted to {1,2}; one transaction type (plain transfer)",
                      "concurrent runs follow the node's thread structure: block notifications from one goroutine, getUnconfirmed only from it",
+                     "pair schedules: 'queued at the pool lock' is read from sync.RWMutex's own waiter counts (field layout found by reflection, "
+                     "semantics confirmed by a self-test at the start of every run; evictPeriod = 0 as in the default configuration)",
                      "TLC 1.8.0"]
     backends = ["test", "real"]
 
@@ -456,11 +458,12 @@ def run(c):
     if not f1 or not f2:
         raise vlib.Infra("no forced put steps (TF lines) generated: %d / %d" % (len(f1), len(f2)))
     # 2b. lock-gated pair schedules: ordered pairs of calls at source states of the graphs, legal outcomes from the graphs
-    #     quick: the 40 nearest + 110 seeded random source states per graph and back end, thorough: G1 completely, G2 1000 states
+    #     quick: the 60 nearest + 140 seeded random source states per graph and back end (all pairs there); thorough: G1 every state,
+    #     G2 the 150 nearest + 1850 random states per back end (= every state the real back end reaches), at most 250000 pairs per back end
     prng = random.Random(c.seed * 7919 + 13)
     pairs, pnotes = [], []
-    for gi, (g, f, sel) in enumerate([(g1, f1, (40, 110, 15000, False) if quick else (100, 10 ** 6, 150000, True)),
-                                      (g2, f2, (40, 110, 15000, False) if quick else (150, 850, 150000, True))]):
+    for gi, (g, f, sel) in enumerate([(g1, f1, (60, 140, 40000, False) if quick else (100, 10 ** 6, 250000, True)),
+                                      (g2, f2, (60, 140, 40000, False) if quick else (150, 1850, 250000, True))]):
         ps, nsrc, dropped = select_pairs(gi, g, f, backends, prng, *sel)
         pairs += ps
         pnotes.append("%s: %d pairs at %d (state, back end) sources" % (g["name"], len(ps), nsrc) + (", %d not expressible" % dropped if dropped else ""))
@@ -516,8 +519,9 @@ def run(c):
     c.exhaustive = True
     c.extra["exhaustive_note"] = (
         "exhaustive over the abstract sequential models: G1 (1 account, nonces 1..4) %d transitions, %s %d transitions, all replayed on each back end "
-        "that can express them (mock state: no dirty-account scans; real state db: no un-notified state change); walks and concurrent schedules "
-        "are sampled" % (n1, g2["name"], n2))
+        "that can express them (mock state: no dirty-account scans; real state db: no un-notified state change); the lock-gated pair schedules "
+        "(%d ordered pairs, every pair of the listed kinds at the chosen source states) cover a seeded subset of the source states%s; walks and "
+        "randomized concurrent schedules are sampled" % (n1, g2["name"], n2, len(pairs), "" if quick else " (G1: all of them)"))
     if r.get("violations"):
         return
 
